@@ -23,7 +23,8 @@ fn run(ctx: &Ctx) {
         "all ten selectors on every n in [0,2^16] exhaustively plus a stride through [2^16,2^22) (quick; all n < 2^22 thorough), \
          judged against an independent reference factorisation; proptest-generated composites of 14 shapes (prime, balanced / \
          unbalanced semiprime, p^k, (pq)^2, p^2 q, many primes, consecutive primes, p(2p-1), Carmichael, factor inside the factor \
-         base, three primes, tiny factors times semiprime) within each selector's size precondition and time budget, with generated \
+         base, three primes, tiny factors times semiprime) within each selector's size precondition and time budget, plus inputs \
+         beyond the working range of Ecm128 / Pm1 / Ecm (lists with composite entries, declared failures), with generated \
          preferences (threads, factor-base size 0.5x..3x default, interval size, large-prime multiplier, double-large-prime switch, verbosity level). \
          Non-trivial = at least two prime factors above 199 (a real algorithm ran); distinct by (selector, n, prefs).",
     );
@@ -65,6 +66,34 @@ fn run(ctx: &Ctx) {
             }
         }
     }
+    // beyond a selector's working range: the entry point then returns a list with composite entries (or the failure
+    // value) through the "factorisation is incomplete" branches, which inputs inside the range never take
+    {
+        use crate::oracle::int::SplitMix;
+        let mut r = SplitMix(crate::engine::hash64(&(ctx.seed, "c01-beyond")));
+        let mut cases = vec![];
+        for j in 0..ctx.n(40, 1200) as u32 {
+            let mut pr = |bits: u32| gen_prime(bits, r.next());
+            // ECM on 128 bits: two factors out of reach / a findable factor times an unreachable cofactor
+            cases.push(mk_case("beyond:ecm128-hard-semiprime", vec![pr(61 + j % 4), pr(62 + j % 3)], "ecm128", PrefSpec::default()));
+            cases.push(mk_case("beyond:ecm128-small-x-hard", vec![pr(12 + j % 6), pr(54 + j % 3), pr(55 + j % 3)], "ecm128", PrefSpec::default()));
+            cases.push(mk_case("beyond:ecm128-oversize", vec![pr(24 + j % 8), pr(60 + j % 20), pr(61 + j % 9)], "ecm128", PrefSpec::default()));
+            // P-1 alone on factors without any smoothness by construction
+            cases.push(mk_case("beyond:pm1-small-x-hard", vec![pr(20 + j % 12), pr(56 + j % 30), pr(58 + j % 30)], "pm1", PrefSpec::default()));
+            if j % 4 == 0 {
+                cases.push(mk_case("beyond:ecm-small-x-hard", vec![pr(22 + j % 10), pr(72 + j % 6), pr(73 + j % 6)], "ecm", PrefSpec::default()));
+            }
+        }
+        let outs = run_batch(ctx, check, "opt", &cases, timeout, &judge_c01, &mut l);
+        for (c, o) in cases.iter().zip(outs.iter()) {
+            match o {
+                Outcome::Ok(fs) if *fs != c.factors => l.label("beyond-range:ok-with-composite-entry"),
+                Outcome::Ok(_) => l.label("beyond-range:ok-complete"),
+                Outcome::Err => l.label("beyond-range:declared-failure"),
+                _ => l.label("beyond-range:other"),
+            }
+        }
+    }
     ctx.merge(l);
     // recorded for the reader, judged by C03 (default preferences) or out of every property's domain (tuning overrides)
     ctx.extra("panics_not_judged_here", Value::Array(panics));
@@ -74,6 +103,7 @@ fn run(ctx: &Ctx) {
     ctx.essential("prefs:verbose", 100);
     ctx.essential("shape:prime-power", 10);
     ctx.essential("shape:square-of-composite", 10);
+    ctx.essential("beyond-range:ok-with-composite-entry", 10);
 }
 
 fn replay(_ctx: &Ctx, check: &str, case: &Value) -> Result<(), Fail> {
